@@ -174,6 +174,16 @@ def run_C20(tier, seed):
         rules = gen_network(rng, 2, 6)
         n = len(rules.splitlines())
         pairs.append({"rules": rules, "rules_b": rules if rng.random() < 0.8 else random_network(rng, n), "ha": H.gen_history(rng, n, max_len=3, kinds=PLAIN), "hb": H.gen_history(rng, n, max_len=4, kinds=PLAIN), "seed": rng.randrange(10**9)})
+    # in ADDITION (own random stream): the same network with one more, never-fixed variable that sorts FIRST (all variable indices shift): the two
+    # diagrams have the same node spaces and edges by name, so comparisons across different networks must see that (seeded change w12_C20);
+    # `ops_only` histories use no target spaces
+    rngx = random.Random(seed ^ 0xC20)
+    for _ in range(_sizes(tier, 40, 400)):
+        rules = gen_network(rngx, 2, 5)
+        n = len(rules.splitlines())
+        kinds = tuple(k for k in PLAIN if k != "target")
+        pairs.append({"rules": rules, "rules_b": "a0extra, !a0extra\n" + rules, "ha": H.gen_history(rngx, n, max_len=3, kinds=kinds),
+                      "hb": H.gen_history(rngx, n, max_len=4, kinds=kinds), "seed": rngx.randrange(10**9), "shifted": True})
     ps = pmap(_c20_pair_worker, pairs)
     for w in ps:
         if w.get("error"):
@@ -197,7 +207,7 @@ def _c20_pair_worker(case):
             op = list(op)
             if op[0] in ("bfs", "dfs", "min", "expand") and op[1] is not None:
                 op[1] = op[1] % len(b)
-            _, _, b = H.apply_real(b, tuple(op), nm)
+            _, _, b = H.apply_real(b, tuple(op), var_names(b) if case.get("shifted") else nm)
         msgs = []
         def sets(sd):
             nodes = {tuple(sorted(sd.node_data(i)["space"].items())) for i in sd.node_ids()}
